@@ -193,7 +193,7 @@ def mk_factory(rng):
             size = int(numpy.prod(shape)) if shape else 1
             vals = [rng.choice([1, 2, 3, -1, -2]) if nonzero else rng.randint(-3, 3) for _ in range(size)]
             return numpoly.polynomial(numpy.array(vals, dtype=numpy.int64).reshape(shape))
-        dt = rng.choice([numpy.int64, numpy.int64, numpy.float64])
+        dt = rng.choice([numpy.int64, numpy.int64, numpy.float64, numpy.complex128])
         return gen.rand_poly(rng, shape, gen.rand_names(rng, 2), nterms=rng.choice([1, 2, 3]), maxexp=2, dtype=dt,
                              raw=rng.random() < 0.25)
     return mk
@@ -236,7 +236,8 @@ def view_of(p, watch):
     return v
 
 
-SITUATIONS = ["plain", "same-object", "aligned", "aligned-names", "views-of-each-other", "view-of-base", "canonical"]
+SITUATIONS = ["plain", "same-object", "aligned", "aligned-names", "views-of-each-other", "view-of-base", "canonical",
+              "ndarray-operand", "list-operand"]
 
 
 def apply_situation(sit, args, kwargs):
@@ -249,6 +250,12 @@ def apply_situation(sit, args, kwargs):
         return a, k, watch
     if not ps:
         return None
+    if sit in ("ndarray-operand", "list-operand"):
+        # the last polynomial operand becomes a plain numeric array / nested list of the same shape
+        last = ps[-1]
+        data = numpy.arange(1, last.size + 1, dtype=numpy.int64).reshape(last.shape) % 4 + 1
+        repl = data if sit == "ndarray-operand" else data.tolist()
+        return (map_polys(a, lambda p: repl if p is last else p), map_polys(k, lambda p: repl if p is last else p), watch)
     if sit == "canonical":          # clean storage, own data: aspolynomial hands back the caller's object
         return map_polys(a, numpoly.polynomial), map_polys(k, numpoly.polynomial), watch
     if sit == "view-of-base":
@@ -469,6 +476,44 @@ def rebuild(args, kwargs):
 def fresh(x):
     """A copy with its own buffer and its own keys array."""
     return rebuild((x,), {})[0][0]
+
+
+def stream_keywords(tie, rng, reps):
+    """where= masks, dtype=/axis= given as arrays or lists, extra keyword arrays: none of them may change."""
+    mk = mk_factory(rng)
+    for _ in range(reps):
+        shape = rng.choice([(2,), (2, 2), (1, 3)])
+        mask = numpy.array([rng.random() < 0.6 for _ in range(int(numpy.prod(shape)))]).reshape(shape)
+        for nm in ("add", "subtract", "multiply", "negative", "absolute", "positive", "square", "floor_divide", "equal",
+                   "not_equal", "logical_and", "logical_or", "isfinite", "ceil", "floor", "rint"):
+            unary = nm in ("negative", "absolute", "positive", "square", "isfinite", "ceil", "floor", "rint")
+            ops = (mk(shape),) if unary else (mk(shape), mk(shape, const=nm == "floor_divide", nonzero=True))
+            for sp in (f"numpoly.{nm}", f"numpy.{nm}"):
+                for sit in ("plain", "aligned"):
+                    a = rebuild(ops, {})[0]
+                    if sit == "aligned" and not unary:
+                        try:
+                            a = tuple(numpoly.align_polynomials(*a))
+                        except Exception:  # noqa: BLE001
+                            continue
+                    tie.run(sp, a, {"where": mask.copy()}, f"where=+{sit}")
+                    tie.run(sp, rebuild(ops, {})[0], {"where": mask.tolist()}, "where=list")
+        p = mk((2, 3))
+        for nm, kw in (("sum", {"axis": [0]}), ("sum", {"axis": (0, 1)}), ("mean", {"axis": numpy.array(0)}), ("prod", {"axis": [1]}),
+                       ("repeat", {"repeats": numpy.array([1, 2]), "axis": 0}), ("tile", {"reps": [2, 1]}),
+                       ("reshape", {"shape": [3, 2]}), ("transpose", {"axes": [1, 0]}), ("moveaxis", {"source": [0], "destination": [1]}),
+                       ("split", {"indices_or_sections": numpy.array([1]), "axis": 1}), ("array_split", {"indices_or_sections": [1, 2], "axis": 1}),
+                       ("diff", {"prepend": mk((2, 1)), "append": mk((2, 1)), "axis": 1}), ("ediff1d", {"to_end": mk((2,)), "to_begin": [1, 2]}),
+                       ("full_like", {"fill_value": mk(()), "shape": [2, 2]}), ("zeros_like", {"shape": [2]}),
+                       ("around", {"decimals": 1}), ("expand_dims", {"axis": 1})):
+            for sp in (f"numpoly.{nm}", f"numpy.{nm}"):
+                a, k = rebuild((p,), kw)
+                tie.run(sp, a, k, "keyword-arrays")
+        c = numpy.array([[True, False, True], [False, True, False]])
+        for sp in ("numpoly.where", "numpy.where"):
+            tie.run(sp, (c.copy(), *rebuild((p, mk((2, 3))), {})[0]), {}, "condition-array")
+            tie.run(sp, (c.tolist(), *rebuild((p, mk((2, 3))), {})[0]), {}, "condition-list")
+            tie.run(sp, (fresh(p), *rebuild((p, mk((2, 3))), {})[0]), {}, "condition-polynomial")
 
 
 def stream_raising(tie, rng, reps):
@@ -739,18 +784,20 @@ def coq_diagnose(info):
     if m:
         rejected = [int(x) for x in re.findall(r"\d+", m.group(2))]
     names = info["names"]
-    blame = {}
+    blame, roots = {}, []
     try:
         res = effects_tr.py_analyse(info)
         for q, r in res.items():
             if r["undeclared"]:
-                blame[q] = {a: v[:4] for a, v in r["undeclared"].items()}
+                blame[q] = {a: sorted(v, key=lambda b: ("in-place" not in b, b))[:4] for a, v in r["undeclared"].items()}
+                for a, v in r["undeclared"].items():
+                    roots += [f"{q}: parameter {a}: {b}" for b in v if "in-place" in b]
     except Exception as exc:  # noqa: BLE001
         blame = {"error": str(exc)}
     return {"coq_output": out[-400:] if rejected is None else None,
             "table_ok": None if not m else m.group(1) == "true",
             "rejected": None if rejected is None else [names[i] for i in rejected if i < len(names)],
-            "blame": blame}
+            "root_stores": sorted(set(roots)), "blame": blame}
 
 
 def run(report, tier, seed):
@@ -771,13 +818,14 @@ def run(report, tier, seed):
     rng = core.rng_for(seed, "C17")
     C = build_callables()
     tie = Tie(report, C)
-    reps = 4 if tier == "quick" else 24
+    reps = 3 if tier == "quick" else 40
     if diag and diag.get("rejected"):
         reps *= 3                                  # the analysis lost a function: search harder for a concrete call
     t0 = time.time()
     stream_catalogue(tie, rng, reps)
-    stream_raising(tie, rng, 1 if tier == "quick" else 6)
-    stream_numpoly_only(tie, rng, 5 if tier == "quick" else 40, 15 if tier == "quick" else 240)
+    stream_keywords(tie, rng, 1 if tier == "quick" else 8)
+    stream_raising(tie, rng, 1 if tier == "quick" else 8)
+    stream_numpoly_only(tie, rng, 5 if tier == "quick" else 80, 15 if tier == "quick" else 300)
     report.notes.append(f"dynamic tie: {tie.n_calls} calls in {time.time() - t0:.1f}s")
 
     # ---- evidence ------------------------------------------------------------------------------
@@ -792,7 +840,7 @@ def run(report, tier, seed):
         "evaluations": tie.n_calls, "distinct_nontrivial": len(tie.distinct),
         "rule": "operation catalogue (every registered numpy function with a generator: numpy, numpoly and method/operator "
                 "spelling) x aliasing situations {plain, same-object, aligned, aligned-names, views-of-each-other, view-of-base, "
-                "canonical, out=, out=+aligned}; calls that raise (shape mismatch, non-constant divisor, bad axis/index, unknown "
+                "canonical, ndarray-operand, list-operand, out=, out=+aligned}; where= masks and keyword arrays/lists; calls that raise (shape mismatch, non-constant divisor, bad axis/index, unknown "
                 "names, malformed attributes); numpoly-only callables (call, derivative/gradient/hessian, division in forked "
                 "children, align_*, constructors from attributes/dicts/lists/structured arrays, queries, properties, indexing, "
                 "iteration, pickle/copy, in-place operators, copyto, index generators). Every argument (deep for lists/dicts, "
@@ -834,10 +882,10 @@ def run(report, tier, seed):
             what = "effect translator could not read /repo/numpoly: " + "; ".join(report.notes[:1])
         elif diag and diag.get("rejected"):
             newly = [q for q in diag["rejected"] if q not in known_unsafe]
-            first = newly[:3]
-            why = "; ".join(f"{q}: {list(diag['blame'].get(q, {}).items())[:1]}" for q in first)
+            why = "; ".join(diag.get("root_stores", [])[:4]) or \
+                "; ".join(f"{q}: {list(diag['blame'].get(q, {}).items())[:1]}" for q in newly[:3])
             what = (f"all_safe no longer checks: {len(newly)} function(s) may write a parameter that is not a declared "
-                    f"output target, e.g. {why}")
+                    f"output target; in-place stores that can reach a parameter: {why}")
         else:
             what = "proof obligation no longer checks: " + str(report.coverage.get("broken_obligation", {}).get("where"))
         report.violation(f"C17: {what}; {tie.n_calls} snapshot-checked calls found no modified argument"[:1500],
